@@ -29,7 +29,7 @@ def fld(e, name=None):
 def check(run, prog, tier):
     run.rule("C14-a", "every store into message_buf[] is at message_producer, has slack >= 1 on every path (full-buffer tests, re-test after flush), and is followed by producer = (producer+1) % SIZE and message_length++", 4)
     run.rule("C14-b", "flush_message: contiguous chunk length, modular consumer advance by the bytes sent, message_length -= bytes sent, nothing consumed when send fails", 4)
-    run.rule("C14-c", "message_producer / message_consumer / message_length are written only by add_message, add_vmessage, flush_message and connection set-up", 3)
+    run.rule("C14-c", "message_producer / message_consumer / message_length are written only by the functions that put bytes into the ring (each store checked under C14-a), flush_message and connection set-up", 3)
     run.rule("C14-d", "add_message and add_vmessage are siblings: same number of ring stores and the same full-buffer tests", 1)
 
     comm = prog.unit("src/comm.c")
@@ -38,76 +38,10 @@ def check(run, prog, tier):
     SIZE = [f_.get("ext") for f_ in irec["fields"] if f_["n"] == "message_buf"][0]
     run.need(SIZE, "extent of message_buf")
 
-    shapes = {}
+    from rules import C14a
+    shapes, ring = C14a.check(run, prog, SIZE)
     for fname in ("add_message", "add_vmessage"):
-        f = run.need(comm.funcs.get(fname), fname)
-        run.saw(f)
-        # slack dataflow: state = lower bound of (SIZE - message_length), capped at 3
-        stores = []
-
-        def transfer(record):
-            def t(blk, lb):
-                for i, e in enumerate(blk.el):
-                    for n in walk(e, True):
-                        k = n.get("k")
-                        if k == "Asg" and strip(n["L"]).get("k") == "Sub" and fld(strip(n["L"])["b"], "message_buf"):
-                            if record is not None:
-                                record.append((blk, i, n, lb))
-                        elif k == "Un" and n.get("op") == "++" and fld(n["e"], "message_length"):
-                            lb = max(lb - 1, 0)
-                        elif k == "Asg" and fld(n["L"], "message_length"):
-                            lb = 0
-                        elif k == "Call" and n.get("fn") not in NO_RING_WRITE:
-                            # a callee that may append to the ring invalidates the bound; flush_message only
-                            # ever lowers message_length, so the slack can only grow across it
-                            lb = 0
-                return lb
-            return t
-
-        def edge(blk, idx, succ, lb):
-            c = f.branch_cond(blk)
-            if c is None:
-                return lb
-            op, l, r = atom_of(c, idx == 0)
-            if op in ("==", "!=") and fld(l, "message_length") and const_val(r) is not None:
-                j = SIZE - const_val(r)
-                if j < 0:
-                    return lb
-                if op == "!=":
-                    return j + 1 if lb == j else lb
-                return max(lb, j) if lb <= j else lb
-            return lb
-        ins = solve(f, 0, transfer(None), edge, lambda a, b: min(a, b))
-        tr = transfer(stores)
-        for b in sorted(f.reachable(), reverse=True):
-            if b in ins:
-                tr(f.blocks[b], ins[b])
-        run.need(stores, "stores into message_buf in " + fname)
-        tests = sorted({const_val(atom_of(f.branch_cond(b), True)[2]) for b in f.reachable()
-                        if f.branch_cond(b) is not None and atom_of(f.branch_cond(b), True)[0] in ("==", "!=") and fld(atom_of(f.branch_cond(b), True)[1], "message_length")
-                        and const_val(atom_of(f.branch_cond(b), True)[2]) is not None})
-        shapes[fname] = (len(stores), [t for t in tests if t >= SIZE - 4])
-        for j, (blk, i, n, lb) in enumerate(stores):
-            inst = "store:%s:%d" % (fname, j)
-            idx = strip(strip(n["L"])["i"])
-            at_prod = fld(idx, "message_producer") is not None
-            # advance + length++ later in the same block
-            adv = ln = False
-            for e in blk.el[i + 1:]:
-                for m in walk(e, True):
-                    if m.get("k") == "Asg" and fld(m["L"], "message_producer"):
-                        r = strip(m["R"])
-                        if r.get("k") == "Bin" and r.get("op") == "%" and const_val(r["R"]) == SIZE:
-                            a = strip(r["L"])
-                            if a.get("k") == "Bin" and a.get("op") == "+" and fld(a["L"], "message_producer") and const_val(a["R"]) == 1:
-                                adv = True
-                    if m.get("k") == "Un" and m.get("op") == "++" and fld(m["e"], "message_length"):
-                        ln = True
-                    if m.get("k") == "Asg" and strip(m["L"]).get("k") == "Sub" and fld(strip(m["L"])["b"], "message_buf"):
-                        break
-            ok = at_prod and lb >= 1 and adv and ln
-            run.ob("C14-a", inst, ok, "%s — at producer: %s; free slots >= %d; modular advance: %s; length++: %s" % (show(n), at_prod, lb, adv, ln), f.file, n.get("l"), fname,
-                   what="%s: ring store %s (at producer %s, slack>=%d, advance %s, length++ %s)" % (fname, show(n), at_prod, lb, adv, ln))
+        run.need(fname in shapes, "%s puts bytes into the ring (directly or through a helper)" % fname)
 
     a, v = shapes["add_message"], shapes["add_vmessage"]
     run.ob("C14-d", "siblings", a == v, "add_message %s vs add_vmessage %s (stores, full-buffer test constants)" % (a, v), comm.funcs["add_message"].file, comm.funcs["add_message"].line, "add_message",
@@ -162,9 +96,10 @@ def check(run, prog, tier):
 
     # ---- C14-c
     setup = {"new_interactive", "create_test_interactive"}
-    allowed = {"message_producer": {"add_message", "add_vmessage"} | setup,
+    putters = set(ring.direct)      # functions that store into the ring (checked store by store under C14-a)
+    allowed = {"message_producer": putters | setup,
                "message_consumer": {"flush_message"} | setup,
-               "message_length": {"add_message", "add_vmessage", "flush_message"} | setup}
+               "message_length": putters | {"flush_message"} | setup}
     for field in ("message_producer", "message_consumer", "message_length"):
         ws = set()
         odd = []
@@ -197,7 +132,7 @@ def check(run, prog, tier):
                 else:
                     odd.append("%s:%s: %s" % (f.name, n.get("l"), show(n)))
         plain = {w.split("(")[0] for w in ws}
-        okw = plain <= allowed[field] | {"add_message", "add_vmessage", "flush_message"} and not odd and bool(ws)
+        okw = plain <= allowed[field] | putters | {"flush_message"} and not odd and bool(ws)
         # regular updates must come from the allowed writers of that field
         reg_bad = {w for w in ws if "(" not in w and w not in allowed[field]}
         run.ob("C14-c", "writers:" + field, okw and not reg_bad, "%s written by %s%s" % (field, sorted(ws), ("; irregular writes: %s" % odd) if odd else ""), comm.funcs["add_message"].file, None, None,
